@@ -179,7 +179,13 @@ def main():
         else:
           outs_equal = True
           for p, (r, s1) in zip(probes, ref):
-            y2 = q2(p).numpy()
+            try:
+              y2 = q2(p).numpy()
+            except Exception as e:  # pylint: disable=broad-except
+              rep.violation(f"rebuilt-raises-{desc}-{rname}", f"{desc} via {rname}: the rebuilt quantizer raises {type(e).__name__}: {str(e)[:200]} on an input "
+                            f"the original accepts (config {q.get_config()})", {"class": cls_name, "kwargs": str(kw), "route": rname})
+              outs_equal = None
+              break
             if env.f2b(y2) != env.f2b(r):
               outs_equal = False
               break
@@ -188,7 +194,7 @@ def main():
               if env.f2b(s1) != env.f2b(np.asarray(s2, dtype=np.float32)):
                 outs_equal = False
                 break
-        if not outs_equal:
+        if outs_equal is False:
           if nondefault_gap:
             for g in nondefault_gap:
               rep.finding(f"C09-get-config-omits-{cls_name}-{g}", f"{desc} via {rname}: rebuilt quantizer differs ({g} is not in get_config)",
